@@ -91,7 +91,7 @@ class Sched:
                 return "blocked"
             return "line"
 
-    def grant_reacquire(self, name, wait=1.0):
+    def grant_reacquire(self, name, wait=20.0):
         """the model's wait_reacquire step: let `name` take the lock back after its Condition.wait()"""
         with self.cv:
             deadline = time.time() + wait
@@ -102,11 +102,11 @@ class Sched:
             self.cv.notify_all()
             # the step is over when the thread, lock in hand again, stands at its next traced line (reported, not yet
             # executed): otherwise the following grant would be used up by that report and the thread fall one line behind
-            deadline = time.time() + 2.0
+            deadline = time.time() + 20.0
             while (len([x for x in self.log if x[0] == name]) == n0 and name not in self.done and time.time() < deadline):
                 self.cv.wait(0.05)
 
-    def await_wake(self, name, wait=4.0):
+    def await_wake(self, name, wait=20.0):
         """the model's wait_wake step: the thread's Condition.wait() ends (by a notify, or because its timeout elapses,
         which takes real time); it then stands at the gate asking for the lock"""
         if not getattr(self, "gated", False):
@@ -201,12 +201,16 @@ def run_schedule(files, fns, order, grace=0.4, finish=True, sched=None):
         if internal == "wait_wake":
             s.await_wake(name)
             continue
-        if internal is not None:
+        if internal is not None and internal != "wait_sleep":
             continue
+        # a step that goes to sleep in Condition.wait() will not come back with a line event: give it the short grace
+        # period.  Every other step must reach its next traced line; under load that can take long, and moving on
+        # early would leave the thread one line behind its schedule.
+        wait = s.grace if internal == "wait_sleep" else 20.0
         if name not in started:
             started.add(name)
-            s.grant(name)          # run to the first line event (the line is reported, not yet executed)
-        s.grant(name)              # execute that line, stop at the next
+            s.grant(name, 20.0)    # run to the first line event (the line is reported, not yet executed)
+        s.grant(name, wait)        # execute that line, stop at the next
     if finish:
         s.completed = s.finish()
     return s
